@@ -65,6 +65,22 @@ func kindOf(r rules.Rule) string {
 	return fmt.Sprintf("%T", r)
 }
 
+func c11Render(r rules.Rule) string {
+	switch v := r.(type) {
+	case *rules.NetworkRule:
+		if v == nil {
+			return "<nil>"
+		}
+	case *rules.HostRule:
+		if v == nil {
+			return "<nil>"
+		}
+	case nil:
+		return "<nil>"
+	}
+	return fmt.Sprintf("%s %q list %d", kindOf(r), clip(r.Text()), r.GetFilterListID())
+}
+
 // c11Reference parses the content line by line.
 func c11Reference(content string, id int, ignoreCosmetic bool) (out []c11Entry) {
 	off := 0
@@ -251,6 +267,35 @@ func c11Check(c *Ctx, lists []c11List, sig map[string]any, replay map[string]any
 					if err != nil || r == nil || r.Text() != e.text || r.GetFilterListID() != e.list {
 						bad("retrieve-returns-scanned-rule", fmt.Sprintf("%s %s: RetrieveRule(%d) [forward, cold] failed: %v", name, c11Describe(lists), e.idx, err))
 						return
+					}
+				}
+				// the typed accessors on a storage nobody has read from yet: the rule if it is of that type, nil otherwise
+				st5, cleanup5 := c11Storage(lists, file)
+				defer cleanup5()
+				for _, e := range want {
+					nr, hr := st5.RetrieveNetworkRule(e.idx), st5.RetrieveHostRule(e.idx)
+					evals++
+					okN := (e.kind == "network") == (nr != nil) && (nr == nil || (nr.Text() == e.text && nr.GetFilterListID() == e.list))
+					okH := (e.kind == "host") == (hr != nil) && (hr == nil || (hr.Text() == e.text && hr.GetFilterListID() == e.list))
+					if !okN || !okH {
+						bad("retrieve-returns-scanned-rule", fmt.Sprintf("%s %s: index %d holds the %s rule %q of list %d: RetrieveNetworkRule = %s, RetrieveHostRule = %s", name, c11Describe(lists), e.idx, e.kind, clip(e.text), e.list, c11Render(nr), c11Render(hr)))
+						return
+					}
+				}
+				// a scanner used on its own over the content of each list
+				if !file {
+					for _, l := range lists {
+						sc := filterlist.NewRuleScanner(strings.NewReader(l.content), l.id, l.ignoreCosmetic)
+						var alone []c11Entry
+						for sc.Scan() {
+							r, off := sc.Rule()
+							alone = append(alone, c11Entry{kindOf(r), r.Text(), r.GetFilterListID(), int64(int32(l.id))<<32 | int64(off)&0xFFFFFFFF})
+						}
+						evals++
+						if ref := c11Reference(l.content, l.id, l.ignoreCosmetic); fmt.Sprint(alone) != fmt.Sprint(ref) {
+							bad("scan-equals-line-by-line-parse", fmt.Sprintf("NewRuleScanner alone over list %d of %s: scanned %s, reference parse gives %s", l.id, c11Describe(lists), clip(fmt.Sprint(alone)), clip(fmt.Sprint(ref))))
+							return
+						}
 					}
 				}
 				// engines over this backing, each built on a storage nobody has read
